@@ -72,7 +72,22 @@ func HResidue() []string {
 
 func HForget() []string {
 	_, b := HMessages()
-	return []string{"upk:" + HMessageMin(), "upk:" + b}
+	return []string{"upk:" + HMessageMin(), "upk:" + b,
+		// SetBytes of a composite field with a valid body that lacks the nested composite / the other subfield
+		"set:60:" + hxs("p102ok"), "set:55:" + hxs("0b17")}
+}
+
+// HCachedBitmap: histories in which the bitmap object is cached (a Pack, a Clone) BEFORE a JSON
+// document with a member "1" is decoded, and the field set changes afterwards.
+func HCachedBitmap() []string {
+	doc := "jd:doc(f(0,s(" + hxs("0210") + ")),f(1,b(4000000000000000)),f(2,s(" + hxs("42") + ")))"
+	var out []string
+	for _, first := range []string{"pack", "set:2:" + hxs("41") + ";pack", "mti:" + hxs("0100") + ";pack;json"} {
+		for _, later := range []string{"set:66:" + hxs("abc"), "mar:55:c(kv(0a,s(" + hxs("m1") + ")))", "unf:2", "set:3:" + hxs("12")} {
+			out = append(out, first+";"+doc+";"+later+";pack", first+";"+doc+";"+later+";json;ids")
+		}
+	}
+	return out
 }
 
 func HPartial() []string {
@@ -495,6 +510,9 @@ func ChannelH(t Tier, r *Rng, emit Emit) {
 				emit("H @ " + alpha[r.Intn(len(alpha))] + ";" + rs + ";" + fg + ";" + pt)
 			}
 		}
+	}
+	for _, h := range HCachedBitmap() {
+		emit("H @ " + h)
 	}
 	// 2. boundary stream
 	ext := append(append(append([]string{}, alpha...), HBoundary()...), nested...)
